@@ -121,6 +121,7 @@ def parseOp (k : Kind) (name : String) (a : List Nat) : Option Op :=
   | .M, "set", [v, i, x] => some (.mSet ⟨.M, v⟩ i x)
   | .U, "insert", [v, kk, x] => some (.mInsert ⟨.U, v⟩ kk x)
   | .U, "insertref", [v, kk, i] => some (.mInsertRef ⟨.U, v⟩ kk i)
+  | .U, "inserthint", [v, p, kk, x] => some (.mInsertHint ⟨.U, v⟩ p kk x)
   | .U, "remove", [v, kk] => some (.mRemove ⟨.U, v⟩ kk)
   | .U, "removeat", [v, i] => some (.mRemoveAt ⟨.U, v⟩ i)
   | .U, "set", [v, i, x] => some (.mSet ⟨.U, v⟩ i x)
